@@ -98,6 +98,13 @@ struct Emb {
     y: Vec<Value>,
 }
 
+/// a `Value` owns what it shows: once the parse is over the caller may refill or free the input buffer
+fn scrub(v: &mut Vec<u8>) {
+    for b in v.iter_mut() {
+        *b = b'#';
+    }
+}
+
 pub fn run_case(t: &[u8]) -> String {
     let mut f: Vec<String> = Vec::new();
     macro_rules! ep {
@@ -113,9 +120,14 @@ pub fn run_case(t: &[u8]) -> String {
     ep!("stream2", {
         let mut doc = b"[0] ".to_vec();
         doc.extend_from_slice(t);
-        let mut it = sonic_rs::Deserializer::from_slice(&doc).into_stream::<Value>();
-        let _first = it.next();
-        match it.next() {
+        let second = {
+            let mut it = sonic_rs::Deserializer::from_slice(&doc).into_stream::<Value>();
+            let _first = it.next();
+            it.next()
+        };
+        scrub(&mut doc);
+        drop(doc);
+        match second {
             Some(r) => d(r),
             None => "R".into(),
         }
@@ -127,7 +139,10 @@ pub fn run_case(t: &[u8]) -> String {
         doc.extend_from_slice(b",\"y\":[");
         doc.extend_from_slice(t);
         doc.extend_from_slice(b",1]}");
-        match sonic_rs::from_slice::<Emb>(&doc) {
+        let parsed = sonic_rs::from_slice::<Emb>(&doc);
+        scrub(&mut doc);
+        drop(doc);
+        match parsed {
             Ok(e) => {
                 let mut a = String::new();
                 dump(&e.v, &mut a);
@@ -154,9 +169,14 @@ pub fn run_case(t: &[u8]) -> String {
     ep!("rawnum2", {
         let mut doc = b"[0] ".to_vec();
         doc.extend_from_slice(t);
-        let mut de = sonic_rs::Deserializer::from_slice(&doc).use_rawnumber();
-        let _first = de.deserialize::<Value>();
-        match Value::deserialize(&mut de) {
+        let second = {
+            let mut de = sonic_rs::Deserializer::from_slice(&doc).use_rawnumber();
+            let _first = de.deserialize::<Value>();
+            Value::deserialize(&mut de)
+        };
+        scrub(&mut doc);
+        drop(doc);
+        match second {
             Ok(v) => {
                 let mut s = String::new();
                 dump_raw(&v, &mut s);
@@ -171,8 +191,13 @@ pub fn run_case(t: &[u8]) -> String {
         doc.extend_from_slice(b",\"y\":[");
         doc.extend_from_slice(t);
         doc.extend_from_slice(b",1]}");
-        let mut de = sonic_rs::Deserializer::from_slice(&doc).use_rawnumber();
-        match Emb::deserialize(&mut de) {
+        let parsed = {
+            let mut de = sonic_rs::Deserializer::from_slice(&doc).use_rawnumber();
+            Emb::deserialize(&mut de)
+        };
+        scrub(&mut doc);
+        drop(doc);
+        match parsed {
             Ok(e) => {
                 let mut a = String::new();
                 dump_raw(&e.v, &mut a);
